@@ -26,6 +26,8 @@ property oracle on the real code's outputs.  Streams:
       over one passive listener (transfer_trace) vs the real dispatcher, and vs the plain-Python oracle
       "REST applies to exactly the next transfer command".
   (f) REST n + STOR/APPE on a MISSING file on all three backends: 451, nothing created, session goes on.
+      Sections 3c / 3d of the matrix: another user stats + lists the target DURING a slowed-down multi-block
+      transfer; backends whose close() fails after a partial flush (226 => exact, failed close => 451).
   (g) histories of uploads over SIBLING names (x.csv / x.json / x.part / x / x.tar.gz / ...), by one session
       after the other and by two sessions at once; after every completion reply the whole directory is
       read from the backend: every acknowledged file still has its bytes, nothing else exists.
@@ -71,7 +73,7 @@ LEVEL_TEXT = (
     "C01_second_transfer_starts_at_0, C01_back_to_back (a restart offset is served to exactly the next transfer command), "
     "C01_stor_missing_file (REST n + STOR/APPE on a missing file: 451, nothing created), C01_upload_touches_its_own_file_only, "
     "C01_acknowledged_file_survives, C01_overlapping_uploads_independent (several files, sibling names, uploads in flight at once), "
-    "C01_refused_transfer_consumes_offset "
+    "C01_close_failure_no_reply (a failing close of the file: no completion reply), C01_refused_transfer_consumes_offset "
     "(a transfer refused before its worker runs consumes the offset too), C01_size_visible_after_226_whoever_looked (stat / "
     "listing steps inserted anywhere in the upload's statement sequence: the size reported after the 226 is the new one), the write_at lemmas, and the closed obligations "
     "C01_source_facts / C01_verb_modes / C01_source_programs on the regenerated facts; C01_model_is_program_denotation, "
@@ -1811,7 +1813,9 @@ def correspondence(ctx, scale=None):
         "the transfer (nobody / the transferring session / another session / both), and both sessions do so AFTER the completion reply; (f) REST n + STOR/APPE on a missing file: 3 backends x 2 verbs x offsets "
         "(1, 5, 0) x 3 payloads; (g) 4 fixed + 26 random upload histories over 8 sibling names (same stem, different last suffix, a stored <stem>.part), "
         "single uploads and overlapping pairs with random write interleavings, memory and PathIO, whole directory compared after every 226; "
-        "throttle configurations include the limits 0 (unlimited) and 1 in every scope; (b2) "
+        "throttle configurations include the limits 0 (unlimited) and 1 in every scope; observers (another user: MLST + MLSD + LIST every 0.4/0.7 "
+        "virtual s) DURING multi-block transfers slowed to one block per second, on memory / PathIO / AsyncPathIO / buffering backends; backends "
+        "whose close() fails after a partial flush (buffering and real-file spy, limit 12 bytes) x sizes around the limit; (b2) "
         "timed read traces: 0-6 segments at non-decreasing instants (gaps 0..1000) x scripted wait delays (0..5000) x block size, real "
         "ThrottleStreamIO.read on the virtual clock vs timed_trace (blocks AND instants). A case "
         "is non-trivial when its full input tuple is distinct (hash); every session case moves real bytes through the real code."
